@@ -4,6 +4,7 @@ import json, sys
 pid = sys.argv[1]
 tag = sys.argv[2] if len(sys.argv) > 2 else pid
 avoid = sys.argv[3] if len(sys.argv) > 3 else ""
+STYLE = sys.argv[4] if len(sys.argv) > 4 else ""
 p = [json.loads(l) for l in open('/verif/properties.jsonl') if json.loads(l)['id'] == pid][0]
 files = ", ".join(p['anchors']['files'])
 hooknote = ""
@@ -16,6 +17,8 @@ Property that your change must break (it holds on the current tree):
 "{p['title']}. {p['statement']}" — quantified over: {p['quantifier']['text']}. Anchored in: {files}.{hooknote}
 
 {("A different change has already been produced for this property: " + avoid + " Produce a change of a DIFFERENT kind (another clause of the property, another code path, and preferably one that needs a particular interleaving, fault or multi-step history rather than a single unusual input).") if avoid else ""}
+
+{STYLE}
 
 Task: make a small, realistic source change (the kind of slip a maintainer could make in a refactor, optimisation or feature tweak) in the worktree that violates this property while the repository still compiles and ALL existing tests still pass (run at least the tests of the packages you touch and their dependants, ideally `go test ./...`; some of the repository's tests are timing based and noisy under load — repeat before concluding). The violation must need something specific to manifest — a particular interleaving, a crash or fault at a particular point, a multi-step sequence of operations, an unusual or boundary input, or two cooperating sites that each look fine alone — NOT something ordinary use would expose at once. Then write a demonstration: a Go test that FAILS with your change and PASSES on the unchanged code (verify both by temporarily reverting your source change with `git diff > /tmp/seed-{tag}-out/patch.diff; git apply -R ...` or by copying files — no git stash).
 
